@@ -6,6 +6,7 @@ the hand-written model (`Sim`, `AbsGen`, …) and the independent specification 
 -/
 import PFV.Spec
 import PFV.Proofs.Tables
+import PFV.Proofs.Guards
 import PFV.Proofs.ProcessFacts
 import PFV.Proofs.Cleanup
 import PFV.Proofs.BodyFacts
